@@ -113,10 +113,12 @@ inline W* G_aux = nullptr;  ///< second wrapper of the same type (handle-overwri
 
 inline std::chrono::microseconds dur_of(int c)
 {
-    switch (c % 3) {
+    switch (c % 5) {
         case 0: return std::chrono::microseconds(2);
         case 1: return std::chrono::microseconds(40);
-        default: return std::chrono::microseconds(20000);
+        case 2: return std::chrono::microseconds(20000);
+        case 3: return std::chrono::microseconds(0);  // "do not wait": valid, means try once
+        default: return std::chrono::microseconds(-5);  // e.g. the remaining time of an expired budget
     }
 }
 
@@ -246,8 +248,8 @@ inline void check_timed(int64_t t_entry, std::chrono::microseconds d, bool until
             gsim::fail("waits_too_long", "%s waited with a deadline %lld ns after the requested "
                        "time point", what, (long long)(dl - t_entry));
     } else {
-        int64_t mx = gsim::timed_block_max_ns();
-        if (mx > req)
+        int64_t mx = gsim::timed_block_max_ns();  // -1: no timed wait was entered at all
+        if (mx >= 0 && mx > (req > 0 ? req : 0))
             gsim::fail("waits_too_long", "%s for %lld ns entered a wait of %lld ns", what,
                        (long long)req, (long long)mx);
     }
@@ -569,6 +571,15 @@ struct Exec {
                         else {
                             gsim::probe("try_lock.null");
                             null_handle_unlock(h, b, op);
+                            if constexpr (has_lock<W>::value) {
+                                if (op.b % 5 == 2) {
+                                    // the natural fall-back while the null handle is still in
+                                    // scope: a null handle holds nothing, so this cannot deadlock
+                                    auto h2 = w.lock();
+                                    excl_section(*h2, 0);
+                                    gsim::probe("null_handle.fallback_lock");
+                                }
+                            }
                         }
                     }
                     check_released(b, "destruction of an exclusive handle");
@@ -590,6 +601,15 @@ struct Exec {
                         else {
                             gsim::probe("try_lock_for.null");
                             null_handle_unlock(h, b, op);
+                            if constexpr (has_lock<W>::value) {
+                                if (op.b % 5 == 2) {
+                                    // the natural fall-back while the null handle is still in
+                                    // scope: a null handle holds nothing, so this cannot deadlock
+                                    auto h2 = w.lock();
+                                    excl_section(*h2, 0);
+                                    gsim::probe("null_handle.fallback_lock");
+                                }
+                            }
                         }
                     }
                     check_released(b, "destruction of an exclusive handle");
@@ -613,6 +633,15 @@ struct Exec {
                         else {
                             gsim::probe("try_lock_until.null");
                             null_handle_unlock(h, b, op);
+                            if constexpr (has_lock<W>::value) {
+                                if (op.b % 5 == 2) {
+                                    // the natural fall-back while the null handle is still in
+                                    // scope: a null handle holds nothing, so this cannot deadlock
+                                    auto h2 = w.lock();
+                                    excl_section(*h2, 0);
+                                    gsim::probe("null_handle.fallback_lock");
+                                }
+                            }
                         }
                     }
                     check_released(b, "destruction of an exclusive handle");
@@ -986,7 +1015,7 @@ void generate(const char* mode)
             op.a = gsim::gen_int(4) == 0 ? 1 + gsim::gen_int(3) : 0;  // hold
             if (gsim::gen_int(12) == 0) op.a |= 8;  // run the op during stack unwinding
             op.b = gsim::gen_int(5);  // life cycle / cas expected
-            op.c = gsim::gen_int(3);  // duration index
+            op.c = gsim::gen_int(5);  // duration index
             if (op.code == OP_STORE || op.code == OP_ASSIGN || op.code == OP_EXCHANGE ||
                 op.code == OP_CAS || (op.code == OP_MODIFY_DETACH && reg)) {
                 op.c = 100 * (t + 1) + i + 1;  // unique value
